@@ -31,6 +31,9 @@ CLAIMED = {
  "C11": dict(text="Every adapter (AsValue for primitives, Option, Vec, HashSet, Object, serde_yaml/serde_json values; Array::iter; Object::get; Document delegates) is extracted from the typed tree, macro instances included, and compared with the specification table (value kind, signedness, widening cast, borrowed strings, slice order for Vec, key unchanged, number accessor consistent with its guard; yaml == json sibling). With the single shared Object::find (C10) equal logical content yields equal Value trees and therefore equal verdicts.",
              note="Third-party parsers are trusted to produce the number representation they document.",
              tech="static analysis: adapter-table extraction from THIR vs spec table + sibling agreement (yaml/json)", ref="4/C11"),
+ "C07": dict(text="The dispatch, filter, alignment and flag layer of string matching is extracted from the typed tree and compared with the specification: Search kind -> string operation with operands in the right positions; MatchType -> offset filter in three sibling copies (search and both halves of slow_aho); every scan uses find_overlapping_iter and no builder sets a match kind; needles and their MatchType context are pushed pairwise with equal text/kind into the bucket of their case class (parser and shaker); the stored case flag equals the flag the matcher was built with; plain case-sensitive searches are only constructed where the ignore-case flag is false; needle folding is ASCII; the pattern-syntax decision list and its order. Decides this layer, not the algorithms of std/regex/aho-corasick.",
+             note="'Exact for all strings' additionally rests on the documented behaviour of std, regex and aho-corasick (trusted).",
+             tech="static analysis: table extraction + sibling agreement + lockstep-push path rules + flag dataflow over THIR", ref="4/C07"),
 }
 PENDING = {}
 props = [json.loads(l) for l in open(os.path.join(V, "properties.jsonl"))]
